@@ -28,6 +28,7 @@ Dispatch(s, now, a, h) ==
     [] n = L_lrange -> CmdLRange(s, now, a)    [] n = L_lset -> CmdLSet(s, now, a)
     [] n = L_lrem -> CmdLRem(s, now, a)        [] n = L_ltrim -> CmdLTrim(s, now, a)
     [] n = L_lpos -> CmdLPos(s, now, a)        [] n = L_lmove -> CmdLMove(s, now, a)
+    [] n = L_blpop -> CmdBPop(s, now, a, "l")  [] n = L_brpop -> CmdBPop(s, now, a, "r")
     [] n = L_hset -> CmdHSet(s, now, a)        [] n = L_hsetnx -> CmdHSetNx(s, now, a)
     [] n = L_hget -> CmdHGet(s, now, a)        [] n = L_hmget -> CmdHMGet(s, now, a)
     [] n = L_hgetall -> CmdHGetAll(s, now, a)  [] n = L_hkeys -> CmdHKeys(s, now, a)
